@@ -19,7 +19,9 @@ func readPointer(s string) (Path, error) {
 		var element JsonNode
 		var err error
 		number, err := strconv.Atoi(t)
-		if err == nil {
+		// RFC 6901 array indices are "0" or digits without a leading zero or
+		// sign. Anything else ("00", "+1", "-0") can only be a member name.
+		if err == nil && number >= 0 && strconv.Itoa(number) == t {
 			element, err = NewJsonNode(number)
 		} else {
 			element, err = NewJsonNode(t)
